@@ -32,6 +32,7 @@ const (
 )
 
 type cmafIngesterMgr struct {
+	mu        sync.Mutex // guards ingesters and cancels
 	nr        atomic.Uint64
 	ingesters map[uint64]*cmafIngester
 	state     ingesterState
@@ -99,7 +100,17 @@ func (cm *cmafIngesterMgr) Start() {
 	cm.state = ingesterStateRunning
 }
 
+// getIngester returns the ingester with the given number and its cancel function (nil if not started).
+func (cm *cmafIngesterMgr) getIngester(nr uint64) (c *cmafIngester, cancel context.CancelFunc, ok bool) {
+	cm.mu.Lock()
+	defer cm.mu.Unlock()
+	c, ok = cm.ingesters[nr]
+	return c, cm.cancels[nr], ok
+}
+
 func (cm *cmafIngesterMgr) Close() {
+	cm.mu.Lock()
+	defer cm.mu.Unlock()
 	for i, cancel := range cm.cancels {
 		if cm.ingesters[i].getState() == ingesterStateRunning {
 			cancel()
@@ -212,12 +223,16 @@ func (cm *cmafIngesterMgr) NewCmafIngester(req CmafIngesterSetup) (nr uint64, er
 	if c.dur != nil {
 		c.nrSegsToSend = m.Ptr(*c.dur * 1000 / asset.SegmentDurMS)
 	}
+	cm.mu.Lock()
 	cm.ingesters[nr] = &c
+	cm.mu.Unlock()
 
 	return nr, nil
 }
 
 func (cm *cmafIngesterMgr) startIngester(nr uint64) {
+	cm.mu.Lock()
+	defer cm.mu.Unlock()
 	c, ok := cm.ingesters[nr]
 	if !ok {
 		return
